@@ -658,6 +658,23 @@ func (t *ftr) ioExpr(e ast.Expr, hint *ty) (ex, bool) {
 			if t.lookup(e.Name) == nil && t.sp.fx == "st" {
 				return ex{"(GoSnaps.Generated.shouldClean st.env)", tBool, false}, true
 			}
+		case "defaultPrettyJSONOptions":
+			// &pretty.Options{…}: its fields are the constants of fact group `pretty` (read from that literal)
+			if t.lookup(e.Name) == nil && t.sp.pkg == "snaps" {
+				if t.pkg.assignedAnywhere(e.Name) {
+					t.fail("package variable %s is assigned somewhere in the package", e.Name)
+					return ex{}, true
+				}
+				return ex{"({ width := (GoSnaps.Generated.prettyWidth : Int), indent := GoSnaps.Generated.prettyIndent, sortKeys := GoSnaps.Generated.prettySortKeys } : GoSnaps.GoIO.PrettyOpts)", tPOpts, false}, true
+			}
+		case "errInvalidJSON":
+			if t.lookup(e.Name) == nil && t.sp.pkg == "snaps" {
+				if c, ok := t.pkg.values[e.Name].(*ast.CallExpr); ok && selName(c.Fun) == "errors.New" && len(c.Args) == 1 {
+					if msg, ok := t.pkg.constString(c.Args[0]); ok && !t.pkg.assignedAnywhere(e.Name) {
+						return ex{"(" + ioNS + "Err.other " + bytesLit(msg) + ")", tErr, false}, true
+					}
+				}
+			}
 		case "errPathNotFound":
 			if t.lookup(e.Name) == nil && t.sp.pkg == "match" {
 				if c, ok := t.pkg.values[e.Name].(*ast.CallExpr); ok && selName(c.Fun) == "errors.New" && len(c.Args) == 1 {
@@ -696,6 +713,19 @@ func (t *ftr) ioExpr(e ast.Expr, hint *ty) (ex, bool) {
 			}
 		}
 	case *ast.SelectorExpr:
+		if id, ok := e.X.(*ast.Ident); ok {
+			if vt := t.lookup(id.Name); vt != nil && vt.k == "jcfgopt" {
+				// a field of *JSONConfig: dereferencing nil panics (none)
+				f := map[string]struct {
+					lean string
+					t    *ty
+				}{"Width": {"width", tInt}, "Indent": {"indent", tText}, "SortKeys": {"sortKeys", tBool}}[e.Sel.Name]
+				if f.lean != "" && t.pkg.structIs("JSONConfig", "Width:int,Indent:string,SortKeys:bool") {
+					t.partial = true
+					return ex{"(← " + t.ln(id.Name) + ")." + f.lean, f.t, true}, true
+				}
+			}
+		}
 		if id, ok := e.X.(*ast.Ident); ok {
 			if vt := t.lookup(id.Name); vt != nil && vt.k == "godecls" && e.Sel.Name == "Decls" {
 				return ex{t.ln(id.Name), tDecls, false}, true
@@ -784,6 +814,41 @@ func (t *ftr) ioExpr(e ast.Expr, hint *ty) (ex, bool) {
 		}
 	case *ast.UnaryExpr:
 		if e.Op == token.AND {
+			if cl, ok := e.X.(*ast.CompositeLit); ok && t.src(cl.Type) == "pretty.Options" {
+				// &pretty.Options{Width: …, Indent: …, SortKeys: …}: a fresh options value (Prefix is not set)
+				parts := map[string]string{}
+				p := false
+				for _, el := range cl.Elts {
+					kv, ok := el.(*ast.KeyValueExpr)
+					if !ok {
+						t.fail("pretty.Options literal with positional fields")
+						return ex{}, true
+					}
+					f := map[string]struct {
+						lean string
+						t    *ty
+					}{"Width": {"width", tInt}, "Indent": {"indent", tText}, "SortKeys": {"sortKeys", tBool}}[selName(kv.Key)]
+					if f.lean == "" {
+						t.fail("pretty.Options literal: field %s is not modelled", selName(kv.Key))
+						return ex{}, true
+					}
+					x := t.exprH(kv.Value, f.t)
+					if t.err != nil {
+						return ex{}, true
+					}
+					if !x.t.eq(f.t) {
+						t.fail("pretty.Options literal: field %s has type %s", selName(kv.Key), x.t.lean())
+						return ex{}, true
+					}
+					p = p || x.p
+					parts[f.lean] = x.s
+				}
+				if len(parts) != 3 {
+					t.fail("pretty.Options literal does not set Width, Indent and SortKeys (zero values are not modelled)")
+					return ex{}, true
+				}
+				return ex{"({ width := " + parts["width"] + ", indent := " + parts["indent"] + ", sortKeys := " + parts["sortKeys"] + " } : GoSnaps.GoIO.PrettyOpts)", tPOpts, p}, true
+			}
 			if id, ok := e.X.(*ast.Ident); ok {
 				if vt := t.lookup(id.Name); vt != nil && vt.k == "bool" && hint != nil && hint.k == "optbool" {
 					// &u stored in the *bool field: the option holds the value u had when it was built
@@ -837,6 +902,12 @@ func (t *ftr) ioExpr(e ast.Expr, hint *ty) (ex, bool) {
 					}
 					return ex{"(" + x.s + ").isNil", tBool, x.p}, true
 				}
+				if x.t.k == "jcfgopt" {
+					if e.Op == token.NEQ {
+						return ex{"(" + x.s + ").isSome", tBool, x.p}, true
+					}
+					return ex{"(" + x.s + ").isNone", tBool, x.p}, true
+				}
 				if x.t.k == "funcptr" {
 					if e.Op == token.NEQ {
 						return ex{"(" + x.s + ").isSome", tBool, x.p}, true
@@ -850,6 +921,18 @@ func (t *ftr) ioExpr(e ast.Expr, hint *ty) (ex, bool) {
 	case *ast.CallExpr:
 		if x, ok := t.matcherMethod(e); ok {
 			return x, true
+		}
+		if sel, ok := e.Fun.(*ast.SelectorExpr); ok && sel.Sel.Name == "getPrettyJSONOptions" && len(e.Args) == 0 {
+			// c.json.getPrettyJSONOptions(): the translated method applied to the Config's *JSONConfig (the json
+			// field is not part of the model's Cfg: `jsonConfigOf c` stands for it)
+			if s2, ok := sel.X.(*ast.SelectorExpr); ok && s2.Sel.Name == "json" && t.hasExtra("jsonConfigOf") {
+				if id, ok := s2.X.(*ast.Ident); ok && t.lookup(id.Name) != nil && t.lookup(id.Name).k == "cfg" {
+					if d := t.funcs["snaps.JSONConfig.getPrettyJSONOptions"]; d != nil {
+						t.partial = true
+						return ex{"(← GoSnaps.Generated.FuncsIO.JSONConfig_getPrettyJSONOptions (jsonConfigOf " + t.ln(id.Name) + "))", tPOpts, true}, true
+					}
+				}
+			}
 		}
 		if d, fname, ok := t.crossPkg(e.Fun); ok && d.spec.fx == "" && len(d.spec.inout) == 0 {
 			var lead []string
@@ -1048,6 +1131,37 @@ func (t *ftr) ioExpr(e ast.Expr, hint *ty) (ex, bool) {
 				n := t.exprH(e.Args[1], tInt)
 				if t.err == nil && n.t.k == "int" {
 					return ex{"(GoSnaps.GoSem.makeTexts " + n.s + ")", tTexts, n.p}, true
+				}
+			}
+		case "fmt.Errorf":
+			// fmt.Errorf("<text>: %w", err): an error whose text is the prefix followed by err's text
+			if len(e.Args) == 2 {
+				if format, ok := t.stringLit(e.Args[0]); ok && strings.HasSuffix(format, "%w") && !strings.Contains(strings.TrimSuffix(format, "%w"), "%") {
+					x := t.expr(e.Args[1])
+					if t.err == nil && x.t.k == "err" {
+						return ex{"(" + ioNS + "Err.other (" + bytesLit(strings.TrimSuffix(format, "%w")) + " ++ (" + x.s + ").text))", tErr, x.p}, true
+					}
+				}
+			}
+			t.fail("unsupported fmt.Errorf %s", t.src(e))
+			return ex{}, true
+		case "yaml.Unmarshal":
+			// yaml.Unmarshal(doc, &out) where out is a throw-away interface{}: only the error matters
+			if len(e.Args) == 2 && t.hasExtra("yamlUnmarshal") {
+				if u, ok := e.Args[1].(*ast.UnaryExpr); ok && u.Op == token.AND {
+					if id, ok := u.X.(*ast.Ident); ok && !t.usedElsewhere(id.Name, e) {
+						x := t.expr(e.Args[0])
+						if t.err == nil && x.t.k == "text" {
+							return ex{"(yamlUnmarshal " + x.s + ")", tErr, x.p}, true
+						}
+					}
+				}
+			}
+		case "yaml.MarshalWithOptions":
+			if len(e.Args) == 2 && e.Ellipsis.IsValid() && t.src(e.Args[1]) == "yamlEncodeOptions" && t.hasExtra("yamlMarshal") {
+				x := t.expr(e.Args[0])
+				if t.err == nil && x.t.k == "dyn" {
+					return ex{"(yamlMarshal " + x.s + ")", pairOf(tText, tErr), x.p}, true
 				}
 			}
 		case "fmt.Sprintf":
@@ -2075,6 +2189,11 @@ func (p *pkgInfo) assignedAnywhere(name string) bool {
 							found = true
 						}
 					}
+					if sel, ok := l.(*ast.SelectorExpr); ok {
+						if id, ok := sel.X.(*ast.Ident); ok && id.Name == name {
+							found = true
+						}
+					}
 				}
 			case *ast.UnaryExpr:
 				if id, ok := s.X.(*ast.Ident); ok && s.Op == token.AND && id.Name == name {
@@ -2088,3 +2207,39 @@ func (p *pkgInfo) assignedAnywhere(name string) bool {
 }
 
 var _ = strconv.Itoa
+
+// usedElsewhere: is the local variable `name` of the function being translated mentioned anywhere other
+// than its `var` declaration and as `&name` in second position of a yaml.Unmarshal call (a throw-away
+// decoding target)?
+func (t *ftr) usedElsewhere(name string, _ ast.Node) bool {
+	fd := t.pkg.fn(t.sp.name)
+	if fd == nil || fd.Body == nil {
+		return true
+	}
+	allowed := map[*ast.Ident]bool{}
+	ast.Inspect(fd.Body, func(n ast.Node) bool {
+		switch x := n.(type) {
+		case *ast.ValueSpec:
+			for _, id := range x.Names {
+				allowed[id] = true
+			}
+		case *ast.CallExpr:
+			if selName(x.Fun) == "yaml.Unmarshal" && len(x.Args) == 2 {
+				if u, ok := x.Args[1].(*ast.UnaryExpr); ok && u.Op == token.AND {
+					if id, ok := u.X.(*ast.Ident); ok {
+						allowed[id] = true
+					}
+				}
+			}
+		}
+		return true
+	})
+	used := false
+	ast.Inspect(fd.Body, func(n ast.Node) bool {
+		if id, ok := n.(*ast.Ident); ok && id.Name == name && !allowed[id] {
+			used = true
+		}
+		return true
+	})
+	return used
+}
